@@ -40,7 +40,7 @@ func runNumProfile(profile string, thorough bool, seed int64, out string, shards
 			}
 		}
 		mems := make([]*numWriter, len(insts))
-		sem := make(chan struct{}, runtime.NumCPU())
+		sem := make(chan struct{}, 4*runtime.NumCPU()) // more runnable goroutines than processors: goroutines get preempted mid-call and share per-P caches
 		var wg sync.WaitGroup
 		for i, in := range insts {
 			mems[i] = newMemWriter(i * 1000)
